@@ -1,10 +1,16 @@
 #!/bin/sh
-# Peer for the lifecycle checks (C09/C10).  $1 = command FIFO, $2 = disposition (default | ignore).
+# Peer for the lifecycle checks (C09/C10).  $1 = command FIFO, $2 = disposition (default | ignore | core).
+# core: default dispositions, but the core size limit is raised and the working directory is the
+# (throw-away) directory of the FIFO, so that a core-dumping signal really dumps core there.
 # The traps are installed before the FIFO is opened, so once the harness' open() of the FIFO
 # returns the disposition is in force.  Commands (one per line):
 #   x<code>  exit with that code        k<sig>  kill self with that signal
 # The peer never writes to its terminal / stdout.
 [ "$2" = ignore ] && trap '' HUP INT
+if [ "$2" = core ]; then
+  ulimit -c unlimited 2>/dev/null || ulimit -c "$(ulimit -H -c)"
+  cd "${1%/*}" || exit 98
+fi
 exec 3<"$1"
 while read cmd <&3; do
   case "$cmd" in
